@@ -257,7 +257,10 @@ class DsaComputation(VariableComputation):
         if comp_def.algo.param_value("p_mode") == "arity":
             n_count = sum(len(c.dimensions) - 1 for c in self.constraints)
             n = len(comp_def.node.neighbors)
-            self.probability = 1 / n_count * 1.2
+            if n_count:
+                # a variable without neighbor keeps the given probability:
+                # it does not wait for anybody and stops at once.
+                self.probability = 1 / n_count * 1.2
             self.logger.debug(
                 f"Using arity-based threshold : {self.probability} {n_count} {n}"
             )
